@@ -24,6 +24,9 @@
 #include "libs/acn/E133Inflator.h"
 #include "libs/acn/LLRPInflator.h"
 #include "libs/acn/RDMInflator.h"
+#include "libs/acn/DMPAddress.h"
+#include "libs/acn/E131Node.h"
+#include "ola/io/SelectServer.h"
 #undef private
 #undef protected
 #include "h_common.h"
@@ -67,6 +70,10 @@ struct Twin {
   ola::acn::LLRPInflator llrp;
   ola::acn::RDMInflator rdm133;
   ola::acn::RDMInflator rdmllrp;
+  // a real E131Node (enable_draft_discovery) as the recipient of the discovery pages: NewDiscoveryPage /
+  // TrackedSource::NewPage / GetKnownControllers are its real code; it is never Start()ed (no network)
+  ola::io::SelectServer ess;
+  std::auto_ptr<ola::acn::E131Node> enode;
   vector<unsigned> unis;
   vector<DmxBuffer*> bufs;
   string events;
@@ -81,6 +88,7 @@ struct Twin {
   }
   void page(const HeaderSet &headers, const E131DiscoveryInflator::DiscoveryPage &p) {
     src(headers);
+    if (enode.get()) enode->NewDiscoveryPage(headers, p);
     string s = "p" + cid_s(headers.GetRootHeader().GetCid()) + "." + vh::str(static_cast<unsigned>(p.page_number)) + "." +
                vh::str(static_cast<unsigned>(p.last_page)) + ".";
     for (size_t i = 0; i < p.universes.size(); i++) s += (i ? "_" : "") + vh::str(static_cast<unsigned>(p.universes[i]));
@@ -100,6 +108,11 @@ struct Twin {
     disc.reset(new E131DiscoveryInflator(ola::NewCallback(this, &Twin::page)));
     transport.reset(new ola::acn::IncomingUDPTransport(&socket, &root));
     socket.Init();
+    {
+      ola::acn::E131Node::Options opts;
+      opts.enable_draft_discovery = true;
+      enode.reset(new ola::acn::E131Node(&ess, "", opts));
+    }
     // E131Node::E131Node
     root.AddInflator(&e131);
     root.AddInflator(&rev2);
@@ -137,7 +150,24 @@ struct Twin {
              c06::buf_s(s.buffer);
       }
     }
+    r += "|k:" + known();
     return r;
+  }
+  // E131Node::GetKnownControllers(), sorted by CID
+  string known() {
+    std::vector<ola::acn::E131Node::KnownController> cs;
+    enode->GetKnownControllers(&cs);
+    vector<string> out;
+    for (size_t i = 0; i < cs.size(); i++) {
+      string u;
+      for (std::set<uint16_t>::const_iterator it = cs[i].universes.begin(); it != cs[i].universes.end(); ++it)
+        u += (u.empty() ? "" : "_") + vh::str(static_cast<unsigned>(*it));
+      out.push_back(cid_s(cs[i].cid) + "." + vh::hex(cs[i].source_name) + "." + (u.empty() ? "-" : u));
+    }
+    std::sort(out.begin(), out.end());
+    string r;
+    for (size_t i = 0; i < out.size(); i++) r += (i ? "," : "") + out[i];
+    return r.empty() ? "-" : r;
   }
 };
 
@@ -170,6 +200,7 @@ string do_acn(const vector<string> &a) {
       for (size_t i = 0; i < f.size(); i++) {
         if (i == 0) { o = f[0]; continue; }
         vector<string> g = vh::split(f[i], ':');
+        if (g[0] == "k") { o += "|" + f[i]; continue; }
         o += "|" + g[0] + ":" + (g.size() > 1 ? g[1] : "") + ":" + (g.size() > 2 ? g[2] : "");
       }
       tr.out(o);
@@ -178,4 +209,20 @@ string do_acn(const vector<string> &a) {
   return tr.result();
 }
 c06::Reg reg("acn", do_acn);
+
+// dmpaddr <size> <type> <data hex>: ola::acn::DecodeAddress on an exact-size heap copy of the data
+string do_dmpaddr(const vector<string> &a) {
+  if (a.size() != 4) return "bad-args";
+  vh::Exact d(vh::unhex(a[3]));
+  unsigned int len = d.n;
+  std::auto_ptr<const ola::acn::BaseDMPAddress> addr(ola::acn::DecodeAddress(
+      static_cast<ola::acn::dmp_address_size>(vh::num(a[1])), static_cast<ola::acn::dmp_address_type>(vh::num(a[2])),
+      d.p, &len));
+  string r = "hz=none;twin=1;s0=";
+  string o = addr.get() ? "a:" + vh::str(addr->Start()) + "." + vh::str(addr->Increment()) + "." + vh::str(addr->Number())
+                        : string("a:null");
+  o += "|len:" + vh::str(len);
+  return r + o + ";o0=" + o;
+}
+c06::Reg reg_dmpaddr("dmpaddr", do_dmpaddr);
 }  // namespace
